@@ -668,6 +668,34 @@ func runTuple[T comparable](args [][]T, fn keyFn[T], r *pbt.R) error {
 		return fmt.Errorf("Without(%s, %s...) = %s, want %s (distinct values of the first argument, in order, not among the listed values)", show(a), show(listed), show(got), show(wantW))
 	}
 
+	// A caller that keeps its slices: the same calls made twice on the SAME argument objects, interleaved (the result of a
+	// call depends on the values of its arguments only, so a helper that used its first argument as scratch space shows in
+	// the next call).
+	if len(a) >= 2 {
+		ca := cloneAll(args)
+		var cb []T
+		if k >= 2 {
+			cb = ca[1]
+		}
+		for round := 1; round <= 2; round++ {
+			if got := gogu.Difference(ca[0], cb); !eq(got, wantD) {
+				return fmt.Errorf("Difference(%s, %s), call %d in a series of calls on the same slices = %s, want %s", show(a), show(b), round, show(got), show(wantD))
+			}
+			if got := gogu.Without[T, T](ca[0], listed...); !eq(got, wantW) {
+				return fmt.Errorf("Without(%s, %s...), call %d in a series of calls on the same slices = %s, want %s", show(a), show(listed), round, show(got), show(wantW))
+			}
+			if got := gogu.Intersection(ca...); !eq(got, wantI) {
+				return fmt.Errorf("Intersection(%s...), call %d in a series of calls on the same slices = %s, want %s", in(), round, show(got), show(wantI))
+			}
+			if got := gogu.DifferenceBy(ca[0], cb, fn.f); checkBy(got, allD) != "" {
+				return fmt.Errorf("DifferenceBy(%s, %s, %s), call %d in a series of calls on the same slices = %s %s", show(a), show(b), fn.name, round, show(got), checkBy(got, allD))
+			}
+			if got := gogu.IntersectionBy(fn.f, ca...); checkBy(got, allI) != "" {
+				return fmt.Errorf("IntersectionBy(%s, %s...), call %d in a series of calls on the same slices = %s %s", fn.name, in(), round, show(got), checkBy(got, allI))
+			}
+		}
+	}
+
 	// Non-triviality (stated rule) and informative labels.
 	dupA := hasDup(a)
 	empty := false
